@@ -1,7 +1,8 @@
 --------------------------- MODULE TraceSubject ---------------------------
 (***************************************************************************)
 (* Trace validation: executions of the REAL didsubject.SqlManager (one     *)
-(* event per step: tx1, commit, tx2, stop, tick, sweep; each with the      *)
+(* event per step and request goroutine p: tx1, commit, tx2, stop, tick,   *)
+(* sweep; each with the                                                    *)
 (* projected real state: DID rows, version numbers per DID, change-log     *)
 (* size, number of did:nuts documents on the network, service / key count  *)
 (* of the latest did:web document) must be behaviours of Subject.tla with  *)
@@ -35,19 +36,19 @@ TReset == /\ IsEvent("reset")
           /\ rows' = [s \in Subjects |-> {}]
           /\ vers' = [s \in Subjects |-> [m \in Methods |-> {}]]
           /\ log' = {} /\ pub' = [s \in Subjects |-> <<>>]
-          /\ pc' = Idle /\ nops' = 0 /\ faults' = 0 /\ ticks' = 0 /\ sweeps' = 0 /\ swept' = TRUE
+          /\ pc' = [p \in Procs |-> Idle] /\ nops' = 0 /\ faults' = 0 /\ ticks' = 0 /\ sweeps' = 0 /\ swept' = TRUE
           /\ pubtx' = {} /\ abandoned' = {} /\ pubkeys' = {} /\ retryOp' = [s \in Subjects |-> "none"]
           /\ phase' = "run" /\ todo' = {} /\ hist' = <<>>
 
 \* the first SQL transaction: refused / no change / changed, as the real call reported
-TTx1 == /\ IsEvent("tx1") /\ Tx1Core(Ev.op, Ev.s)
-        /\ Ev.out = (IF Rejected(Ev.op, Ev.s) THEN "reject" ELSE IF pc'.ph = "commit" THEN "changed" ELSE "noop")
+TTx1 == /\ IsEvent("tx1") /\ Tx1Core(Ev.op, Ev.s, Ev.p)
+        /\ Ev.out = (IF Rejected(Ev.op, Ev.s) THEN "reject" ELSE IF pc'[Ev.p].ph = "commit" THEN "changed" ELSE "noop")
         /\ StateOK
-TCommit == /\ IsEvent("commit") /\ CommitMethod(Ev.m)
-           /\ (Ev.res = "fail") <=> pc'.failed
+TCommit == /\ IsEvent("commit") /\ CommitMethod(Ev.p, Ev.m)
+           /\ (Ev.res = "fail") <=> pc'[Ev.p].failed
            /\ StateOK
-TTx2 == /\ IsEvent("tx2") /\ Tx2
-        /\ (Ev.kind = "abandon") <=> pc.failed
+TTx2 == /\ IsEvent("tx2") /\ Tx2(Ev.p)
+        /\ (Ev.kind = "abandon") <=> pc[Ev.p].failed
         /\ StateOK
 TStop == IsEvent("stop") /\ Stop /\ StateOK
 TTick == IsEvent("tick") /\ Tick /\ StateOK
